@@ -223,7 +223,8 @@ def gen_container(cls, rng, tier):
     # DOT exports with every attribute-callback combination on a fixed and on random graphs
     for gi in range(40 if tier == "thorough" else 8):
         g = sc.random_graph(cls, rng, maxn=8 if gi % 2 else 20, maxe=14 if gi % 2 else 45)
-        steps = g.steps() + ["gnew"] + ["gins 0 %d" % u for u in range(g.n)]
+        # from the third graph on only a part of the nodes are members: edges cross the membership boundary both ways
+        steps = g.steps() + ["gnew"] + ["gins 0 %d" % u for u in range(g.n) if gi < 2 or rng.random() < 0.7]
         for ga in (0, 1, 2):
             for na in (0, 1, 2):
                 for ea in (0, 1, 2):
@@ -271,9 +272,11 @@ def gen_container(cls, rng, tier):
                 steps.append("iso %d" % u)
             elif r < 0.74:
                 steps.append(rng.choice(["gget", "ghas"]) + " %d %d" % (g, k))
-            else:
+            elif r < 0.95:
                 qs = ["glen", "gvec", "giter", "gorph", "gdot"] + (["groots", "gleaves"] if cls == "D" else [])
                 steps.append("%s %d" % (rng.choice(qs), g))
+            else:
+                steps.append(("only:ungraph " if cls == "U" else "") + "gdota %d %d %d %d" % (g, rng.randrange(3), rng.randrange(3), rng.randrange(3)))
         steps.append("snap")
         cases.append(Case("kr%s%d" % (cls, ci), cls, steps, dict(kind="random-container-history")))
     # large containers (100-300 members): views and lookups after many inserts / removes
